@@ -110,7 +110,10 @@ func loadReasm(r *Run, w *World) *reasm {
 		})
 		return found
 	})
-	x.less, x.sortFn, x.absFn = m("sequenceNumSlice", "Less"), m("sequenceNumSlice", "Sort"), fn("abs")
+	x.less, x.sortFn = m("sequenceNumSlice", "Less"), m("sequenceNumSlice", "Sort")
+	if f, err := w.Func("libaudit", "abs"); err == nil {
+		x.absFn = f // optional: a refactor may fold it into Less
+	}
 	x.fMaxSize, x.fTimeout, x.fMutex = fv("eventList", "maxSize"), fv("eventList", "timeout"), fv("eventList", "Mutex")
 	x.fMsgs, x.fComplete, x.fExpire = fv("event", "msgs"), fv("event", "complete"), fv("event", "expireTime")
 	x.fClosed, x.fList, x.fStream = fv("Reassembler", "closed"), fv("Reassembler", "list"), fv("Reassembler", "stream")
@@ -119,7 +122,7 @@ func loadReasm(r *Run, w *World) *reasm {
 	if x.ok {
 		r.UseFn(fnName(x.put), fnName(x.cleanUp), fnName(x.clear), fnName(x.remove), fnName(x.add), fnName(x.isExpired),
 			fnName(x.callback), fnName(x.pushMessage), fnName(x.maintain), fnName(x.closeFn), fnName(x.newReassembler),
-			fnName(x.newEventList), fnName(x.less), fnName(x.sortFn), fnName(x.absFn))
+			fnName(x.newEventList), fnName(x.less), fnName(x.sortFn))
 	}
 	return x
 }
@@ -419,8 +422,8 @@ func (x *reasm) evictionLoops(ruleID, clause string) {
 			}
 		}
 		// returned values: (evicted phi, lost)
-		for _, ret := range returnsOf(fn) {
-			vals := returnedValues(ret)
+		for _, ret := range retEdges(fn) {
+			vals := ret.Results
 			ok := len(vals) == 2
 			if ok {
 				leaves, _ := phiLeaves(vals[0])
@@ -698,57 +701,63 @@ func init() {
 	}
 }
 
-func propC02(r *Run, w *World) {
-	x := loadReasm(r, w)
-	if !x.ok {
-		return
+// lessSemantics decides what Less computes from the shape of its paths: every branch of Less
+// compares linear expressions of the two elements a = p[i], b = p[j] (widened to int64), so
+// each path is a conjunction of linear constraints. For every path and every region of the
+// plane — a-b > M, b-a > M, |a-b| <= M — that the path can reach, the returned comparison is
+// shown (by Fourier–Motzkin refutation over the path's constraints) to coincide with the
+// serial-number order: a > b when the elements are more than M apart, a < b otherwise. This is
+// a finite case analysis over orderings; no input is run and no path is handed to a solver.
+func (x *reasm) lessSemantics() {
+	r := x.r
+	M := int64(16777215)
+	fn := x.less
+	hasAbs := x.absFn != nil
+	// R2: no narrow or unsigned subtraction feeds the decision
+	r.Rule("C02.R2", "the distance is computed without 32-bit wrap: every subtraction in Less (and abs) has signed 64-bit operands that are widening conversions of the elements, or operates on such differences", 1)
+	scopeFns := []*ssa.Function{fn}
+	if hasAbs {
+		scopeFns = append(scopeFns, x.absFn)
 	}
-	// R1
-	r.Rule("C02.R1", "the roll-over window constant is 2^24-1 and Less compares the distance with it", 2)
-	if c, ok := r.constOf("libaudit", "maxSortRange"); ok {
-		r.Check(constVal(c) == "16777215", "maxSortRange", c.Pos(), "= 1<<24 - 1", "maxSortRange = "+constVal(c)+", want 16777215")
-	}
-	distTerm := "libaudit.abs((int64(p0[p1]) - int64(p0[p2])))"
-	var ifs []*ssa.If
-	instrsOf(x.less, func(in ssa.Instruction) {
-		if i, ok := in.(*ssa.If); ok {
-			ifs = append(ifs, i)
-		}
-	})
-	okIf := len(ifs) == 1 && Lit(ifs[0].Cond, true) == distTerm+" > 16777215"
-	if len(ifs) == 1 {
-		r.Check(okIf, "Less window test", ifs[0].Pos(), "abs(int64(p[i]) - int64(p[j])) > maxSortRange", "Less does not test the distance against maxSortRange: "+Lit(ifs[0].Cond, true))
-	} else {
-		r.Fail("Less window test", x.less.Pos(), fmt.Sprintf("expected one branch in Less, found %d", len(ifs)))
-	}
-	// abs is abs
-	r.Rule("C02.R2", "the distance is computed without 32-bit wrap: every subtraction in Less/abs has signed 64-bit operands that are widening conversions of the elements", 1)
-	for _, fn := range []*ssa.Function{x.less, x.absFn} {
-		instrsOf(fn, func(in ssa.Instruction) {
-			b, ok := in.(*ssa.BinOp)
-			if !ok || b.Op != token.SUB {
+	for _, f := range scopeFns {
+		instrsOf(f, func(in ssa.Instruction) {
+			var bt *types.Basic
+			var ops []ssa.Value
+			switch b := in.(type) {
+			case *ssa.BinOp:
+				if b.Op != token.SUB {
+					return
+				}
+				bt, _ = b.Type().Underlying().(*types.Basic)
+				ops = []ssa.Value{b.X, b.Y}
+			case *ssa.UnOp:
+				if b.Op != token.SUB {
+					return
+				}
+				bt, _ = b.Type().Underlying().(*types.Basic)
+			default:
 				return
 			}
-			bt, _ := b.Type().Underlying().(*types.Basic)
 			ok64 := bt != nil && bt.Kind() == types.Int64
-			if ok64 {
-				for _, op := range []ssa.Value{b.X, b.Y} {
-					cv, isConv := op.(*ssa.Convert)
-					if !isConv {
-						ok64 = false
-						break
-					}
+			for _, op := range ops {
+				if cv, isConv := op.(*ssa.Convert); isConv {
 					st, _ := cv.X.Type().Underlying().(*types.Basic)
 					if st == nil || st.Kind() != types.Uint32 {
 						ok64 = false
 					}
+				} else if c, isC := op.(*ssa.Const); !isC || c.Value == nil {
+					ob, _ := op.Type().Underlying().(*types.Basic)
+					if ob == nil || ob.Kind() != types.Int64 {
+						ok64 = false
+					}
 				}
 			}
-			r.Check(ok64, fnName(fn)+" subtraction", b.Pos(), "int64(uint32) - int64(uint32)", "subtraction on narrow or unsigned operands: "+Term(b))
+			r.Check(ok64, fnName(f)+" subtraction", in.Pos(), "signed 64-bit arithmetic on widened elements", "subtraction on narrow or unsigned operands: "+Term(in.(ssa.Value)))
 		})
 	}
-	absOK := false
-	{
+	// abs, when it exists as a function, is the absolute value
+	if hasAbs {
+		absOK := false
 		ps, _ := Paths(x.absFn, PathOpts{})
 		if len(ps) == 2 {
 			n := 0
@@ -767,30 +776,215 @@ func propC02(r *Run, w *World) {
 			}
 			absOK = n == 2
 		}
+		r.Check(absOK, "abs", x.absFn.Pos(), "abs returns -x for x<0 and x otherwise", "abs is not the absolute value")
 	}
-	r.Check(absOK, "abs", x.absFn.Pos(), "abs returns -x for x<0 and x otherwise", "abs is not the absolute value")
 
-	r.Rule("C02.R3", "the two outcomes of Less compare the same two elements with opposite strict inequalities, '>' on the far-apart edge", 2)
-	{
-		ps, _ := Paths(x.less, PathOpts{})
-		for i, p := range ps {
-			ret := p.Return()
-			key := fmt.Sprintf("Less path#%d", i)
-			if ret == nil || len(ret.Results) != 1 {
-				r.Fail(key, x.less.Pos(), "no single result")
+	r.Rule("C02.R3", "Less is the serial-number order: on every path, for every region (a-b > M, b-a > M, |a-b| <= M) the path can reach, the returned comparison equals a > b when the elements are more than M = 2^24-1 apart and a < b otherwise (linear case analysis over the path conditions)", 2)
+	aT, bT := "p0[p1]", "p0[p2]"
+	ps, complete := Paths(fn, PathOpts{})
+	if !complete || len(ps) == 0 {
+		r.Undecided("Less paths", fn.Pos(), "cannot enumerate the paths of Less")
+		return
+	}
+	for i, p := range ps {
+		key := fmt.Sprintf("Less path#%d [%s]", i, strings.Join(p.Lits(), " ∧ "))
+		ret := p.Return()
+		if ret == nil || len(ret.Results) != 1 {
+			r.Fail(key, fn.Pos(), "no single result")
+			continue
+		}
+		// linear reading of values along this path; abs(e) becomes a fresh atom with a case split
+		type absUse struct {
+			atom string
+			arg  Lin
+		}
+		var absUses []absUse
+		opaque := ""
+		var lin func(v ssa.Value, depth int) Lin
+		lin = func(v ssa.Value, depth int) Lin {
+			v = p.Resolve(v)
+			if depth > 12 {
+				opaque = Term(v)
+				return linAtom(Term(v))
+			}
+			switch y := v.(type) {
+			case *ssa.Const:
+				if k, ok := constInt(y); ok {
+					return linConst(k)
+				}
+			case *ssa.Convert:
+				// widening of an element (uint32 → int64) preserves the value
+				st, _ := y.X.Type().Underlying().(*types.Basic)
+				dt, _ := y.Type().Underlying().(*types.Basic)
+				if st != nil && dt != nil && st.Kind() == types.Uint32 && (dt.Kind() == types.Int64 || dt.Kind() == types.Uint64 || dt.Kind() == types.Int) && x.w.Sizes.Sizeof(dt) == 8 {
+					return lin(y.X, depth+1)
+				}
+			case *ssa.BinOp:
+				if bt, _ := y.Type().Underlying().(*types.Basic); bt != nil && bt.Kind() == types.Int64 {
+					switch y.Op {
+					case token.SUB:
+						return lin(y.X, depth+1).sub(lin(y.Y, depth+1))
+					case token.ADD:
+						return lin(y.X, depth+1).add(lin(y.Y, depth+1))
+					}
+				}
+			case *ssa.UnOp:
+				if y.Op == token.SUB {
+					if bt, _ := y.Type().Underlying().(*types.Basic); bt != nil && bt.Kind() == types.Int64 {
+						return lin(y.X, depth+1).neg()
+					}
+				}
+				if y.Op == token.MUL {
+					t := Term(y)
+					if t == aT || t == bT {
+						return linAtom(t)
+					}
+				}
+			case *ssa.Call:
+				if hasAbs && y.Call.StaticCallee() == x.absFn && len(y.Call.Args) == 1 {
+					at := fmt.Sprintf("abs#%d", len(absUses))
+					for _, u := range absUses {
+						if u.arg.String() == lin(y.Call.Args[0], depth+1).String() {
+							return linAtom(u.atom)
+						}
+					}
+					absUses = append(absUses, absUse{at, lin(y.Call.Args[0], depth+1)})
+					return linAtom(at)
+				}
+			case *ssa.ChangeType:
+				return lin(y.X, depth+1)
+			}
+			t := Term(v)
+			if t != aT && t != bT {
+				opaque = t
+			}
+			return linAtom(t)
+		}
+		// a comparison with a truth value as a set of rows (each row: expr >= 0)
+		cmpRows := func(v ssa.Value, truth bool) ([]Lin, bool) {
+			v = p.Resolve(v)
+			for {
+				if u, ok := v.(*ssa.UnOp); ok && u.Op == token.NOT {
+					v = p.Resolve(u.X)
+					truth = !truth
+					continue
+				}
+				break
+			}
+			if c, ok := v.(*ssa.Const); ok && c.Value != nil && c.Value.Kind() == constant.Bool {
+				if constant.BoolVal(c.Value) == truth {
+					return nil, true
+				}
+				return []Lin{linConst(-1)}, true // contradiction
+			}
+			bo, ok := v.(*ssa.BinOp)
+			if !ok {
+				return nil, false
+			}
+			op := bo.Op
+			if !truth {
+				op = negCmp(op)
+			}
+			X, Y := lin(bo.X, 0), lin(bo.Y, 0)
+			switch op {
+			case token.LSS:
+				return []Lin{Y.sub(X).addK(-1)}, true
+			case token.LEQ:
+				return []Lin{Y.sub(X)}, true
+			case token.GTR:
+				return []Lin{X.sub(Y).addK(-1)}, true
+			case token.GEQ:
+				return []Lin{X.sub(Y)}, true
+			case token.EQL:
+				return []Lin{X.sub(Y), Y.sub(X)}, true
+			}
+			return nil, false // != is a disjunction: not used by an order function
+		}
+		var pathRows []Lin
+		okLin := true
+		for _, e := range p.Events {
+			if e.Kind != EvCond || e.Val == nil {
 				continue
 			}
-			t := Term(ret.Results[0])
-			switch {
-			case p.HasLit(distTerm + " > 16777215"):
-				r.Check(t == "(p0[p1] > p0[p2])", key+" far", ret.Pos(), "far apart: p[i] > p[j]", "far-apart edge returns "+t)
-			case p.HasLit(distTerm + " <= 16777215"):
-				r.Check(t == "(p0[p1] < p0[p2])", key+" near", ret.Pos(), "near: p[i] < p[j]", "near edge returns "+t)
-			default:
-				r.Fail(key, ret.Pos(), "return not under the window test: "+describePath(p))
+			rows, ok := cmpRows(e.Val, e.ValPol)
+			if !ok {
+				okLin = false
+			}
+			pathRows = append(pathRows, rows...)
+		}
+		A, B := linAtom(aT), linAtom(bT)
+		domain := []Lin{A, B, linConst(4294967295).sub(A), linConst(4294967295).sub(B)}
+		retT, okT := cmpRows(ret.Results[0], true)
+		retF, okF := cmpRows(ret.Results[0], false)
+		if !okLin || !okT || !okF || opaque != "" {
+			r.Undecided(key, ret.Pos(), "a condition or the result of Less is not a linear comparison of the two elements ("+opaque+"): "+describePath(p))
+			continue
+		}
+		// abs case splits
+		splits := [][]Lin{nil}
+		for _, u := range absUses {
+			T := linAtom(u.atom)
+			pos := []Lin{u.arg, T.sub(u.arg), u.arg.sub(T)}                      // e >= 0, T = e
+			neg := []Lin{u.arg.neg().addK(-1), T.add(u.arg), T.add(u.arg).neg()} // e <= -1, T = -e
+			var next [][]Lin
+			for _, s := range splits {
+				next = append(next, append(append([]Lin{}, s...), pos...), append(append([]Lin{}, s...), neg...))
+			}
+			splits = next
+		}
+		type region struct {
+			name   string
+			rows   []Lin
+			expGT  bool // expected result: a > b (else a < b)
+		}
+		regions := []region{
+			{"a-b > M", []Lin{A.sub(B).addK(-(M + 1))}, true},
+			{"b-a > M", []Lin{B.sub(A).addK(-(M + 1))}, true},
+			{"|a-b| <= M", []Lin{linConst(M).sub(A.sub(B)), linConst(M).sub(B.sub(A))}, false},
+		}
+		bad := ""
+		reached := 0
+		for _, sp := range splits {
+			for _, rg := range regions {
+				base := append(append(append([]Lin{}, domain...), pathRows...), sp...)
+				base = append(base, rg.rows...)
+				if infeasible(base) {
+					continue
+				}
+				reached++
+				var expT, expF []Lin // expected comparison true / false
+				if rg.expGT {
+					expT, expF = []Lin{A.sub(B).addK(-1)}, []Lin{B.sub(A)}
+				} else {
+					expT, expF = []Lin{B.sub(A).addK(-1)}, []Lin{A.sub(B)}
+				}
+				c1 := append(append([]Lin{}, base...), append(retT, expF...)...)
+				c2 := append(append([]Lin{}, base...), append(retF, expT...)...)
+				if !infeasible(c1) || !infeasible(c2) {
+					want := "a < b"
+					if rg.expGT {
+						want = "a > b"
+					}
+					bad = fmt.Sprintf("in the region %s the path returns %s, which is not %s", rg.name, Term(p.Resolve(ret.Results[0])), want)
+				}
 			}
 		}
+		r.Check(bad == "" && reached > 0, key, ret.Pos(), fmt.Sprintf("%d reachable region(s): result is the serial-number order", reached),
+			"Less does not order the elements as uint32 serial numbers with window 2^24-1: "+bad+" — "+describePath(p))
 	}
+}
+
+func propC02(r *Run, w *World) {
+	x := loadReasm(r, w)
+	if !x.ok {
+		return
+	}
+	// R1
+	r.Rule("C02.R1", "the roll-over window constant maxSortRange is 2^24-1 (the window Less is checked against in R3)", 1)
+	if c, ok := r.constOf("libaudit", "maxSortRange"); ok {
+		r.Check(constVal(c) == "16777215", "maxSortRange", c.Pos(), "= 1<<24 - 1", "maxSortRange = "+constVal(c)+", want 16777215")
+	}
+	x.lessSemantics()
 
 	r.Rule("C02.R4", "sort after insert: every path of Put that stores seqs calls Sort on the stored slice afterwards; Sort hands the receiver to sort.Sort", 2)
 	{
@@ -960,8 +1154,8 @@ func propC03(r *Run, w *World) {
 	}
 	r.Check(len(inv) == 1, "single EventsLost site", x.callback.Pos(), "", fmt.Sprintf("%d invoke sites of EventsLost", len(inv)))
 	for _, fn := range []*ssa.Function{x.cleanUp, x.clear} {
-		for _, ret := range returnsOf(fn) {
-			vals := returnedValues(ret)
+		for _, ret := range retEdges(fn) {
+			vals := ret.Results
 			if len(vals) != 2 {
 				r.Fail(fnName(fn)+" lost", ret.Pos(), "unexpected result count")
 				continue
@@ -1055,11 +1249,34 @@ func propC03(r *Run, w *World) {
 					continue
 				}
 				n++
+				// the store may come before or after the subtraction, but it must come after the
+				// load of lastSeq the subtraction uses (the difference is taken from the old value)
+				var loads []ssa.Instruction
+				var leaves []ssa.Instruction
+				leafInstrs(sb, map[ssa.Value]bool{}, &leaves)
+				for _, lf := range leaves {
+					if u, ok := lf.(*ssa.UnOp); ok && u.Op == token.MUL {
+						if fa, ok := u.X.(*ssa.FieldAddr); ok && fieldOfAddr(fa) == x.fLastSeq {
+							loads = append(loads, u)
+						}
+					}
+				}
 				adv := false
 				for _, e := range p.Events {
 					if st, ok := e.Instr.(*ssa.Store); ok && e.Kind == EvStore {
-						if fa, ok := st.Addr.(*ssa.FieldAddr); ok && fieldOfAddr(fa) == x.fLastSeq && p.order(st) > p.order(sb) {
-							adv = true
+						if fa, ok := st.Addr.(*ssa.FieldAddr); ok && fieldOfAddr(fa) == x.fLastSeq {
+							after := true
+							for _, ld := range loads {
+								if p.order(ld) >= 0 && p.order(st) < p.order(ld) {
+									after = false
+								}
+							}
+							if len(loads) == 0 {
+								after = p.order(st) > p.order(sb)
+							}
+							if after {
+								adv = true
+							}
 						}
 					}
 				}
@@ -1143,8 +1360,8 @@ func propC03(r *Run, w *World) {
 	same := len(a) > 0 && strings.Join(a, "\n") == strings.Join(b, "\n")
 	// the value added to lost must also be the same term
 	lostTerm := func(fn *ssa.Function) string {
-		for _, ret := range returnsOf(fn) {
-			vals := returnedValues(ret)
+		for _, ret := range retEdges(fn) {
+			vals := ret.Results
 			if len(vals) == 2 {
 				return Term(vals[1])
 			}
@@ -1246,7 +1463,7 @@ func impliesStrict(v ssa.Value, pol bool, w *World, depth int) bool {
 		}
 		rets := returnsOf(f)
 		for _, ret := range rets {
-			vals := returnedValues(ret)
+			vals := ret.Results
 			if len(vals) != 1 || !impliesStrict(vals[0], pol, w, depth+1) {
 				return false
 			}
@@ -1333,8 +1550,8 @@ func (x *reasm) isLossTerm(v ssa.Value, subs []*ssa.BinOp, depth int) bool {
 		if f == nil || !x.w.isRepoFn(f) {
 			return false
 		}
-		for _, ret := range returnsOf(f) {
-			vals := returnedValues(ret)
+		for _, ret := range retEdges(f) {
+			vals := ret.Results
 			if len(vals) != 1 {
 				return false
 			}
@@ -1825,8 +2042,8 @@ func propC11(r *Run, w *World) {
 
 	r.Rule("C11.R6", "results handed out of the lock are detached: what CleanUp/Clear return is accumulated from nil by append only (never a view of a field guarded by the mutex), so callback reads memory no later locked section writes", 2)
 	for _, fn := range []*ssa.Function{x.cleanUp, x.clear} {
-		for _, ret := range returnsOf(fn) {
-			vals := returnedValues(ret)
+		for _, ret := range retEdges(fn) {
+			vals := ret.Results
 			ok := len(vals) == 2
 			why := ""
 			if ok {
